@@ -52,9 +52,9 @@ TBegin ==
        /\ case' = e.case
        /\ ps' = IF e.mode = "full" /\ Len(e.hdr) = 1 THEN InitPS(e.hdr[1])
                 ELSE IF e.mode = "bytes"
-                THEN LET d == Decode(e.bytes) IN
+                THEN LET d == Decode(e.xbytes) IN
                      IF d.t = "ok" THEN ApplyFrames(InitPS(d.prog.hdr), d.prog.frames, 1)
-                     ELSE [st |-> "bytesclass", out |-> OutcomeOfBytes(e.bytes), why |-> d.why]
+                     ELSE [st |-> "bytesclass", out |-> OutcomeOfBytes(e.xbytes), why |-> d.why]
                 ELSE Idle
        /\ res' = ""
        \* a case whose meta carries variant_of is another encoding of the preceding base case
